@@ -103,6 +103,110 @@ def run_combine(mods, ref1, ref2, vars1, vars2, ctx, canary=False, cli=False, pr
     return obl, fs
 
 
+WORKERS = ['parallel_combine_by_binfile', 'parallel_combine_by_binfile_offsets', 'parallel_combine_by_boxes_offsets']
+
+
+def shifted_offsets(mods, ref1, ref2, ctx, shifted):
+    """The real combine() with its worker functions wrapped: what they return (the byte position of every box they wrote, proved by
+    K-combine to be where the box header went) is moved up by one symbolic non-negative base <= 2^40 - a binary file that held that many
+    bytes of earlier boxes.  Returns (base, [(file, offset term)] as the written level headers list them)."""
+    comb = mods['amr_kitchen.combine.combine']
+    PC = mods['amr_kitchen.plotfile_cooker'].PlotfileCooker
+    fs = SymFS()
+    ref1.write_symfs(fs, '/work/plt1')
+    ref2.write_symfs(fs, '/work/plt2')
+    B = 0
+    if shifted:
+        B = core.integer('filebase')
+        ctx.assume(B.t >= 0)
+        ctx.assume(B.t <= 2 ** 40)
+    with patch.Patched(mods, fs), common.quiet():
+        real = {n: getattr(comb, n) for n in WORKERS if hasattr(comb, n)}
+
+        def wrap(f):
+            def g(args):
+                return [o + B for o in f(args)]
+            g.__name__ = f.__name__
+            return g
+        for n in real:
+            setattr(comb, n, wrap(real[n]))
+        try:
+            comb.combine(PC('plt1'), PC('plt2'), pltout='out')
+        finally:
+            for n in real:
+                setattr(comb, n, real[n])
+    out = []
+    for l in range(ref1.nlev):
+        for line in fs.lookup('/work/out/%s%d/Cell_H' % (ref1.level_prefix, l)).s.split('\n'):
+            if line.startswith('FabOnDisk:'):
+                tok = line.split()[-1]
+                p = core.parse_token(tok)
+                out.append((line.split()[1], p[0] if p else int(tok)))
+    return B, out
+
+
+BIG_REPLAY = '''
+import tempfile, shutil, contextlib, io
+from amr_kitchen import PlotfileCooker
+from amr_kitchen.combine.combine import combine
+# two single-level plotfiles on one mesh (17 boxes of 256 x 256 x 64 cells, two fields each, all zeros, written sparse); the combined
+# binary file passes 2^31 bytes at its 17th box
+FAB = "FAB ((8, (64 11 52 0 1 12 0 1023)),(8, (8 7 6 5 4 3 2 1)))"
+NX, NY, NZ, NB = 256, 256, 64, 17
+DX = 1.0 / 256
+def idx(i):
+    return (0, 0, i * NZ), (NX - 1, NY - 1, (i + 1) * NZ - 1)
+def hdr(i, nf):
+    lo, hi = idx(i)
+    return (FAB + "((" + ",".join(map(str, lo)) + ") (" + ",".join(map(str, hi)) + ") (0,0,0)) %d\\n" % nf).encode()
+def write(path, fields):
+    nf = len(fields)
+    os.makedirs(os.path.join(path, "Level_0"))
+    with open(os.path.join(path, "Header"), "w") as h:
+        h.write("HyperCLaw-V1.1\\n%d\\n" % nf + "".join(f + "\\n" for f in fields) + "3\\n0.5\\n0\\n0.0 0.0 0.0\\n")
+        h.write("%r %r %r\\n\\n" % (NX * DX, NY * DX, NB * NZ * DX))
+        h.write("((0,0,0) (%d,%d,%d) (0,0,0))\\n7\\n%r %r %r\\n0\\n0\\n0 %d 0.5\\n7\\n" % (NX - 1, NY - 1, NB * NZ - 1, DX, DX, DX, NB))
+        for i in range(NB):
+            lo, hi = idx(i)
+            for d in range(3):
+                h.write("%r %r\\n" % (lo[d] * DX, (hi[d] + 1) * DX))
+        h.write("Level_0/Cell\\n")
+    offs = []
+    with open(os.path.join(path, "Level_0", "Cell_D_00000"), "wb") as bf:
+        for i in range(NB):
+            offs.append(bf.tell())
+            bf.write(hdr(i, nf))
+            bf.seek(bf.tell() + nf * NX * NY * NZ * 8)
+        bf.truncate(bf.tell())
+    with open(os.path.join(path, "Level_0", "Cell_H"), "w") as c:
+        c.write("1\\n1\\n%d\\n0\\n(%d 0\\n" % (nf, NB))
+        for i in range(NB):
+            lo, hi = idx(i)
+            c.write("((" + ",".join(map(str, lo)) + ") (" + ",".join(map(str, hi)) + ") (0,0,0))\\n")
+        c.write(")\\n%d\\n" % NB + "".join("FabOnDisk: Cell_D_00000 %d\\n" % o for o in offs))
+        row = ",".join("0.0000000000000000e+00" for _ in range(nf)) + ",\\n"
+        c.write("\\n%d,%d\\n" % (NB, nf) + row * NB + "\\n%d,%d\\n" % (NB, nf) + row * NB)
+top = tempfile.mkdtemp(prefix="c06big_")
+RESULT = 1.0
+try:
+    write(os.path.join(top, "a"), ["u", "v"])
+    write(os.path.join(top, "b"), ["w", "x"])
+    with contextlib.redirect_stdout(io.StringIO()), contextlib.redirect_stderr(io.StringIO()):
+        combine(PlotfileCooker(os.path.join(top, "a")), PlotfileCooker(os.path.join(top, "b")), pltout=os.path.join(top, "out"))
+    lines = open(os.path.join(top, "out", "Level_0", "Cell_H")).read().split("\\n")
+    fod = [l.split() for l in lines if l.startswith("FabOnDisk:")]
+    assert len(fod) == NB, "the level header lists %d boxes" % len(fod)
+    for i, (_, fname, off) in enumerate(fod):
+        with open(os.path.join(top, "out", "Level_0", fname), "rb") as bf:
+            assert int(off) >= 0, "box %d: offset %s" % (i, off)
+            bf.seek(int(off))
+            got = bf.readline()
+            assert got == hdr(i, 4), "box %d: no header of that box at the listed offset %s" % (i, off)
+finally:
+    shutil.rmtree(top, ignore_errors=True)
+'''
+
+
 def layout_class(l1, l2):
     """Which combination path the pair of layouts selects."""
     tags = []
@@ -206,6 +310,49 @@ def run_case(case):
                     sig = 'C06/mismatch/%s' % name
                     viol.setdefault(sig, {'signature': sig, 'what': obl.failed[0][0], 'mismatch': name})
 
+    # the magnitude of the byte positions: combine() with its workers' results moved up by a symbolic base (up to 2^40)
+    if True:
+        def opath(ctx):
+            obl = Obl(ctx)
+            try:
+                _, base = shifted_offsets(mods, ref1, ref2, ctx, False)
+            except Exception:
+                return obl              # this pair is refused as it stands: the runs above judge that
+            try:
+                B, got = shifted_offsets(mods, ref1, ref2, ctx, True)
+            except Exception as e:
+                obl.fail('combine() with box positions beyond a base of up to 2^40 bytes raised %s: %s' % (type(e).__name__, str(e)[:120]))
+                return obl
+            obl.holds(len(base) == len(got) and len(got) > 0, 'combine() with shifted box positions lists %d boxes, %d without the shift' % (len(got), len(base)))
+            for (f0, o0), (f1, o1) in zip(base, got):
+                obl.equal(o1, o0 + B, 'combine() with every box position of a file moved up by base (0 <= base <= 2^40): offset of a box in %s as listed in the level header' % f0)
+            return obl
+        results, exhaustive, stats = core.explore(opath, max_paths=8)
+        res.add_explore(results, exhaustive, stats)
+        for ctx, obl in results:
+            res.add_obl(obl)
+            if obl.failed and not ctx.flags and 'C06/offset-magnitude' not in viol:
+                viol['C06/offset-magnitude'] = {'signature': 'C06/offset-magnitude', 'what': obl.failed[0][0][:400], 'vars': [None, None], 'big': True}
+
+        # canary of this block: against positions moved up by base + 1 the comparison must fail (and the level headers must list boxes)
+        def ocanary(ctx):
+            obl = Obl(ctx)
+            try:
+                _, base = shifted_offsets(mods, ref1, ref2, ctx, False)
+                B, got = shifted_offsets(mods, ref1, ref2, ctx, True)
+            except Exception:
+                obl.refused = True      # the pair is refused as it stands: no canary here
+                return obl
+            obl.holds(len(got) > 0, 'no box listed')
+            for (f0, o0), (f1, o1) in zip(base, got):
+                obl.equal(o1, o0 + B + 1, 'canary')
+            return obl
+        ocres, _, _ = core.explore(ocanary, max_paths=2)
+        if ocres and not any(getattr(o, 'refused', False) for _, o in ocres):
+            res['canaries'] += 1
+            if all(o.failed for _, o in ocres):
+                res['canaries_fired'] += 1
+
     def canary(ctx):
         return run_combine(mods, ref1, ref2, None, None, ctx, canary=True)[0]
     cres, _, _ = core.explore(canary, max_paths=2)
@@ -238,6 +385,10 @@ def run_case(case):
                 run = run.replace("combine(PlotfileCooker('plt1')", "try:\n    combine(PlotfileCooker('plt2'), PlotfileCooker('plt1'), pltout='out_prior')\nexcept Exception:\n    pass\ncombine(PlotfileCooker('plt1')", 1)
             exp = expected(ref1, ref2, *v['vars'])
             expd = {'kind': 'raise'} if exp is None else {'kind': 'tree', 'tree_exp': exp, 'compare': 'bits'}
+            if v.get('big'):
+                # the counterexample lives where conversions of byte positions differ: beyond 2^31 (a scratch directory of ~2.3 GB,
+                # removed by the replay itself)
+                run, expd = BIG_REPLAY, {'kind': 'value', 'close': 1.0}
         d, status, out = common.replay_portfolio(lambda: replay_lib.make_tool_replay('C06', sig, v['what'], {'plt1': (fs, '/work/plt1'), 'plt2': (fs, '/work/plt2')}, run, expd))
         v2 = {'signature': sig, 'what': v['what'], 'replay': d}
         if status == 'reproduced':
